@@ -61,6 +61,10 @@ fn main() {
         "C14" => props::c14::run(&report, &tier),
         "C15" => props::c15::run(&report, &tier),
         "C16" => props::c16::run(&report, &tier),
+        "lab5" => {
+            props::lab5();
+            return;
+        }
         "lab4" => {
             props::lab4();
             return;
